@@ -47,9 +47,14 @@ theorem C13_recomputed {c : Content} (hn : WFnames c) {cache : Cache}
     (hv : vars.map (·.1) = omKeys c.vars) (t : Rat) {env : Env}
     (h : getArgsEnv c cache vars t = .ok env) :
     (∀ k dq, c.derived.lookup k = some dq → (Comp.fn dq).Holds k env) ∧
-    (∀ k ∈ cache.dynOrder, ∀ comp, c.containers.lookup k = some comp → comp.Holds k env) :=
+    (∀ k ∈ cache.dynOrder, ∀ comp, c.containers.lookup k = some comp → comp.Holds k env) ∧
+    -- … from THE SUPPLIED state: everything no dynamic component provides — `time`, the state
+    -- variables, the parameter table — has the supplied / cached value
+    (∀ n, n ∉ cache.dynOrder.flatMap (providedOf c.containers) →
+      env.lookup n = (baseEnv cache.allPars vars c.data t).lookup n) :=
   ⟨fun k dq hk => derived_holds hn hc vars hv t h k dq hk,
-   (getArgs_consistent (WFd_of_names c hn) hc vars hv t h).1⟩
+   (getArgs_consistent (WFd_of_names c hn) hc vars hv t h).1,
+   (getArgs_consistent (WFd_of_names c hn) hc vars hv t h).2⟩
 
 /-- **Exact classification**: a sorted name is in the parameter closure iff it is a parameter or
     depends, through any chain, only on parameters. -/
